@@ -38,8 +38,8 @@ fn exec_process_twin(c: &crate::cli::CliCase, ctr: &mut Ctr) -> Result<Exec, Str
     let a = crate::cli::run_cli(c, c.entropy, &sb)?;
     let b = crate::cli::run_cli(c, te, &sb)?;
     bump(ctr, "fault.process_entropy_twin");
-    if a.fired.getrandom_seeded == 0 && a.exit == Some(0) {
-        return Err("shim not live: the child rendered without asking the shim for entropy".into());
+    if a.fired.calls == 0 {
+        return Err("shim not live: the child made no intercepted call".into());
     }
     let mut violation = None;
     if a.exit != b.exit || a.stdout != b.stdout || a.after.bytes != b.after.bytes {
